@@ -41,6 +41,104 @@ def dur_of(interp, v):
     return syms.pop() if len(syms) == 1 else None
 
 
+LAYOUT = {'seconds': (32, 32), 'fractional': (24, 8), 'counter': (8, 16), 'node': (0, 8)}      # (decided for the constructor by C10.SEM)
+WIDTHS = {'u8': 8, 'u16': 16, 'u32': 32, 'u64': 64, 'usize': 64}
+
+
+def frac_of(d):
+    return ('sym', ('frac', ('ms', d)))
+
+
+def bits_value(d, c, n, shift, width):
+    """the word (time d, counter c, node n) shifted right by `shift` and truncated to `width` bits: one whole field, the word, or an
+    intermediate that is still to be masked / cast"""
+    width = min(width, 64 - shift)
+    if (shift, width) == (0, 64):
+        return ('hlcword', d, c, n)
+    if shift == 32 and width >= 32:
+        return ('secs', d)
+    if (shift, width) == LAYOUT['fractional']:
+        return frac_of(d)
+    if (shift, width) == LAYOUT['counter']:
+        return ('ctr', c)
+    if (shift, width) == LAYOUT['node']:
+        return ('node', n)
+    return ('hlcbits', d, c, n, shift, width)
+
+
+def ext_binop(interp, op, a, b):
+    """shifts / masks on the packed word and the arithmetic between a time and its (seconds, 4 ms fraction) parts"""
+    k = b[1] if b[0] == 'int' and b[1] is not None else None
+    if a[0] in ('hlcword', 'hlcbits') and k is not None:
+        d, c, n = a[1], a[2], a[3]
+        shift, width = (a[4], a[5]) if a[0] == 'hlcbits' else (0, 64)
+        if op in ('Shr', 'ShrUnchecked'):
+            if k >= width:
+                return ('int', 0)
+            return bits_value(d, c, n, shift + k, width - k)
+        if op == 'BitAnd' and k > 0 and (k & (k + 1)) == 0:
+            return bits_value(d, c, n, shift, min(width, k.bit_length()))
+        raise Unmodelled('%s on the packed word' % op)
+    if a[0] in ('hlcword', 'hlcbits') or b[0] in ('hlcword', 'hlcbits'):
+        if op in ('Eq', 'Ne') and a[0] == b[0] == 'hlcword':
+            return None
+        raise Unmodelled('%s on the packed word' % op)
+    # a time counted in fraction steps: seconds * k + fraction (k above the largest fraction, so the count orders like the time),
+    # taken apart again with / k and % k
+    if a[0] == 'secs' and op in ('Mul', 'MulWithOverflow') and k:
+        v = ('secsmul', a[1], k)
+        return ('tuple', [Cell(v), Cell(mk_bool(False))]) if op.endswith('WithOverflow') else v
+    if op in ('Add', 'AddWithOverflow') and {a[0], b[0]} == {'secsmul', 'sym'}:
+        sm, fr = (a, b) if a[0] == 'secsmul' else (b, a)
+        if fr[1][0] == 'frac' and fr[1][1][1] == sm[1]:
+            if sm[2] < 250:
+                raise Unmodelled('a time counted in steps of which a second has fewer than the fraction can reach')
+            v = ('ticks', sm[1], sm[2])
+            return ('tuple', [Cell(v), Cell(mk_bool(False))]) if op.endswith('WithOverflow') else v
+        raise Unmodelled('seconds and fraction of two different times added')
+    if a[0] == 'ticks' and k is not None and op in ('Div', 'Rem'):
+        if k != a[2]:
+            raise Unmodelled('a step count divided by something other than its steps per second')
+        return ('secs', a[1]) if op == 'Div' else frac_of(a[1])
+    if a[0] == 'ticks' and b[0] == 'ticks' and op in ('Lt', 'Le', 'Gt', 'Ge', 'Eq', 'Ne'):
+        if a[2] != b[2]:
+            raise Unmodelled('step counts of different units compared')
+        return mk_bool(interp.ts_rel(op, a, b))
+    if a[0] == 'durdiff' and op in ('Lt', 'Le', 'Gt', 'Ge') and (b[0] == 'const' or k is not None):
+        return drift_test(interp, a, b, op.lower())
+    # the 4 ms fraction: sub-second reading / k, and back: fraction * k
+    if a[0] == 'ms' and op == 'Div' and k:
+        return frac_of(a[1])
+    if a[0] == 'sym' and a[1][0] == 'frac' and op in ('Mul', 'MulWithOverflow') and k:
+        v = ('ms', a[1][1][1])
+        return ('tuple', [Cell(v), Cell(mk_bool(False))]) if op.endswith('WithOverflow') else v
+    return None
+
+
+def drift_test(interp, a, b, seg):
+    """`a - b > limit`: an oracle per (a, b), the limit recorded (a named constant, or a number of steps with its unit)"""
+    if a[3] in ('<', '='):
+        big = False                      # the difference saturates at zero
+    else:
+        memo = interp.__dict__.setdefault('memo', {})
+        key = ('drift', interp.canon(a[1]), interp.canon(a[2]))
+        if key not in memo:
+            memo[key] = interp.choose('drift:%s-%s' % (key[1], key[2]))
+        big = memo[key]
+    unit = a[4] if len(a) > 4 else None
+    if (unit is None) != (b[0] == 'const'):
+        raise Unmodelled('a drift in steps compared with a Duration limit or the other way round')
+    interp.trace.append(('drift-limit', b[1] if unit is None else 'steps:%d/%d' % (b[1], unit)))
+    return mk_bool({'gt': big, 'ge': big, 'lt': not big, 'le': not big}[seg])
+
+
+def ext_cast(interp, v, ty):
+    if v[0] in ('hlcword', 'hlcbits') and ty in WIDTHS:
+        shift, width = (v[4], v[5]) if v[0] == 'hlcbits' else (0, 64)
+        return bits_value(v[1], v[2], v[3], shift, min(width, WIDTHS[ty]))
+    return None
+
+
 def make_hook(hlc_adt, wall_names=()):
     def word_of(interp, v):
         v = interp.deref_all(v)
@@ -84,13 +182,26 @@ def make_hook(hlc_adt, wall_names=()):
                 deep_find(interp, a, ('ctr',), cs)
                 deep_find(interp, a, ('node',), ns)
             ints = [a for a in args if a[0] == 'int']
+            if not ints and not cs:
+                deep_find(interp, args[0] if len(args) == 1 else None, ('int',), ints)      # (the parts travel in one struct / tuple)
             if ds and len({x[1] for x in ds}) == 1 and len(ns) == 1 and (len(cs) == 1 or (not cs and len(ints) == 1)):
                 ctr = cs[0][1] if cs else ('const', ints[0][1])
                 return ('hlcword', ds[0][1], ctr, ns[0][1])
-        if name == 'core::time::Duration::as_secs' and args[0][0] == 'dur':
-            return ('secs', args[0][1])
-        if name in ('core::time::Duration::subsec_millis', 'core::time::Duration::subsec_nanos', 'core::time::Duration::subsec_micros') and args[0][0] == 'dur':
-            return ('ms', args[0][1])
+        if name.startswith('core::time::Duration::') and args:
+            a0 = interp.deref_all(args[0])
+            if seg == 'as_secs' and a0 is not None and a0[0] == 'dur':
+                return ('secs', a0[1])
+            if seg in ('subsec_millis', 'subsec_nanos', 'subsec_micros') and a0 is not None and a0[0] == 'dur':
+                return ('ms', a0[1])
+            # a time put together again from its own parts
+            if seg == 'from_secs' and a0 is not None and a0[0] == 'secs':
+                return ('durpart', 'secs', a0[1])
+            if seg in ('from_millis', 'from_micros', 'from_nanos') and a0 is not None and a0[0] == 'ms':
+                return ('durpart', 'ms', a0[1])
+        if name in ('core::ops::arith::Add::add', 'core::time::Duration::saturating_add') and len(args) == 2 and args[0][0] == 'durpart' and args[1][0] == 'durpart':
+            if args[0][2] == args[1][2] and {args[0][1], args[1][1]} == {'secs', 'ms'}:
+                return ('dur', args[0][2])
+            raise Unmodelled('a time assembled from the parts of two different times')
         if name in ('core::time::Duration::saturating_sub', 'core::time::Duration::checked_sub') and args[0][0] == 'dur' and args[1][0] == 'dur':
             r = interp.order.cmp(args[0][1], args[1][1])
             v = ('durdiff', args[0][1], args[1][1], r)
@@ -98,16 +209,13 @@ def make_hook(hlc_adt, wall_names=()):
         if name.startswith('core::cmp::PartialOrd::') and len(args) == 2:
             a, b = interp.deref_all(args[0]), interp.deref_all(args[1])
             if a is not None and b is not None and a[0] == 'durdiff' and b[0] == 'const':
-                if a[3] in ('<', '='):
-                    big = False                      # the difference saturates at zero
-                else:
-                    memo = interp.__dict__.setdefault('memo', {})
-                    key = ('drift', interp.canon(a[1]), interp.canon(a[2]))
-                    if key not in memo:
-                        memo[key] = interp.choose('drift:%s-%s' % (key[1], key[2]))
-                    big = memo[key]
-                interp.trace.append(('drift-limit', b[1]))
-                return mk_bool({'gt': big, 'ge': big, 'lt': not big, 'le': not big}[seg])
+                return drift_test(interp, a, b, seg)
+        if name.startswith('core::num::') and seg in ('saturating_sub', 'checked_sub') and len(args) == 2 and args[0][0] == 'ticks' and args[1][0] == 'ticks':
+            if args[0][2] != args[1][2]:
+                raise Unmodelled('step counts of different units subtracted')
+            r = interp.order.cmp(args[0][1], args[1][1])
+            v = ('durdiff', args[0][1], args[1][1], r, args[0][2])
+            return v if seg == 'saturating_sub' else (mk_option(v) if r != '<' else mk_option(None))
         if name.startswith('core::num::') and seg == 'checked_add' and args[0][0] == 'ctr':
             if args[1][0] == 'int' and args[1][1] == 1:
                 over = interp.choose('overflow:%s' % (args[0][1],))
@@ -156,12 +264,17 @@ def run_method(facts, body, hlc_adt, self_word, msg_word, ranks, wall_names=()):
         it = Interp(facts, order_of(ranks), opaque_call=make_hook(hlc_adt, wall_names))
         it.choices = list(choices)
         it.canon = canon_factory(ranks)
+        it.ext_binop = ext_binop
+        it.ext_cast = ext_cast
         selfv = ('adt', hlc_adt, 0, [Cell(self_word)])
-        args = [('ref', Cell(selfv))]
+        sc = Cell(selfv)
+        args = [('ref', sc)]
         if msg_word is not None:
             args.append(('ref', Cell(('adt', hlc_adt, 0, [Cell(msg_word)]))))
         r = it.run_body(body, args)
-        return it.oracle_log, (selfv[3][0].v, r, list(it.trace))
+        cur = it.deref_all(('ref', sc))          # (the state may be written field-wise or replaced as a whole: `*self = ..`)
+        word = cur[3][0].v if cur is not None and cur[0] == 'adt' and cur[3] else None
+        return it.oracle_log, (word, r, list(it.trace))
     return explore(run)
 
 
@@ -289,6 +402,14 @@ def check_hlc(ctx, facts, rule):
             if res and res[0] != 'panic':
                 limits |= {x[1] for x in res[2] if isinstance(x, tuple) and x[0] == 'drift-limit'}
     limit_ok = len(limits) == 1 and 'MAX_CLOCK_DRIFT' in next(iter(limits))
+    if len(limits) == 1 and str(next(iter(limits))).startswith('steps:'):
+        # the limit as a number of steps: it must be the drift limit constant's seconds times the steps per second of the counts compared
+        from analysis import cname as _cn
+        from facts import const_int as _ci
+        secs = {_ci(t['args'][0]) for n_, b_ in facts.bodies.items() if b_.kind == 'const' and n_.endswith('::MAX_CLOCK_DRIFT')
+                for _b, t in b_.calls() if _cn(t) == 'core::time::Duration::from_secs' and t['args']}
+        l_, u_ = next(iter(limits))[6:].split('/')
+        limit_ok = len(secs) == 1 and None not in secs and int(l_) == next(iter(secs)) * int(u_)
     ctx.ob(rule, 'drift-limit', limit_ok, site_s, 'every drift test compares against the one drift limit constant (%s)' % sorted(limits) if limit_ok else
            'drift is tested against %s' % sorted(limits))
     # ---- recv ------------------------------------------------------------------------------------------------------------
